@@ -689,6 +689,28 @@ def a_flatten(I, a, *args, **kw):
     raise Unsupported("flatten with symbolic width")
 
 
+@method(Arr, "reshape")
+def a_reshape(I, a, *args, **kw):
+    """reshape of a 1-D array to (-1, w) with a concrete width w (C order): out[c, j] = a[c*w + j]."""
+    shape = args[0] if len(args) == 1 else tuple(args)
+    if isinstance(shape, PList):
+        shape = tuple(shape.items)
+    if a.ndim == 1 and isinstance(shape, tuple) and len(shape) == 2 and shape[0] == -1 and isinstance(shape[1], int) and shape[1] > 0:
+        w = shape[1]
+        n = a.shape[0]
+        if isinstance(n, int):
+            if n % w:
+                I.raise_(ValueError)
+            rows = n // w
+        else:
+            if not I.path.branch(Z(n) % w == 0, f"reshape-divisible@{I.cur_line}"):
+                I.raise_(ValueError)
+            rows = mk(Z(n) / w, "int")
+        theory.use("T-np.reshape (-1, w) of a 1-D array in C order: out[c, j] = a[c*w + j]")
+        return Arr((rows, w), lambda c, j, _e=fz(a), _w=w: _e(Z(c) * _w + Z(j)), a.dtype, a.tag + ".reshape")
+    raise Unsupported("reshape other than 1-D -> (-1, w)")
+
+
 @method(Arr, "copy")
 def a_copy(I, a, *args, **kw):
     out = Arr(a.shape, fz(a), a.dtype, a.tag)
@@ -1001,6 +1023,44 @@ def np_reduce_bool(I, a, is_any, axis=None):
 
         return Arr((a.shape[0],), elem, "bool", "reduce1")
     raise Unsupported("reduction axis")
+
+
+@model(np.diff)
+def np_diff(I, args, kw):
+    a = as_arr(I, I.unwrap(args[0]))
+    if a.ndim != 1 or kw:
+        raise Unsupported("np.diff of rank != 1 or with options")
+    theory.use("T-np.diff of a 1-D array: out[i] = a[i+1] - a[i], one entry fewer (none for an empty array)")
+    n = a.shape[0]
+    m = max(n - 1, 0) if isinstance(n, int) else mk(z3.If(Z(n) > 0, Z(n) - 1, 0), "int")
+    return Arr((m,), lambda i, _e=fz(a): _e(Z(i) + 1) - _e(Z(i)), a.dtype, a.tag + ".diff")
+
+
+@model(np.argsort)
+def np_argsort(I, args, kw):
+    """argsort of a 1-D numeric array: a permutation pi of [0, n) with a[pi(i)] non-decreasing (ties in any
+    order); argsort of such a permutation is its inverse.  NaN keys are outside the model (T-fp.reals)."""
+    a = as_arr(I, I.unwrap(args[0]))
+    if a.ndim != 1 or kw:
+        raise Unsupported("np.argsort of rank != 1 or with options")
+    inv_of = getattr(a, "perm_inverse", None)
+    if inv_of is not None:
+        theory.use("T-np.argsort of a permutation of 0..n-1 is its inverse permutation")
+        return inv_of
+    theory.use("T-np.argsort: a permutation pi with a[pi(i)] non-decreasing")
+    n = Z(a.shape[0])
+    perm = z3.Function(fresh_name("argsort"), z3.IntSort(), z3.IntSort())
+    inv = z3.Function(fresh_name("argsort_inv"), z3.IntSort(), z3.IntSort())
+    i, j = z3.Ints(f"{fresh_name('i')} {fresh_name('j')}")
+    key = fz(a)
+    I.path.assume(z3.ForAll([i], z3.Implies(z3.And(i >= 0, i < n), z3.And(perm(i) >= 0, perm(i) < n, inv(perm(i)) == i)), patterns=[perm(i)]))
+    I.path.assume(z3.ForAll([j], z3.Implies(z3.And(j >= 0, j < n), z3.And(inv(j) >= 0, inv(j) < n, perm(inv(j)) == j)), patterns=[inv(j)]))
+    I.path.assume(z3.ForAll([i, j], z3.Implies(z3.And(i >= 0, i <= j, j < n), key(perm(i)) <= key(perm(j))), patterns=[z3.MultiPattern(perm(i), perm(j))]))
+    P = Arr((a.shape[0],), lambda t, _p=perm: _p(Z(t)), "int", a.tag + ".argsort")
+    Q = Arr((a.shape[0],), lambda t, _q=inv: _q(Z(t)), "int", a.tag + ".argsort.inverse")
+    P.perm_inverse, Q.perm_inverse = Q, P
+    I.path.ghost.setdefault("argsorts", []).append({"of": a, "perm": perm, "inv": inv})
+    return P
 
 
 @model(np.all)
